@@ -183,6 +183,8 @@ func c19Run(c fw.Case, env *fw.Env) fw.Result {
 	if !errors.As(mqtt.VerifWrapError(rt, "x"), &rte) || !errors.As(fmt.Errorf("a: %w", mqtt.VerifWrapErrorWithRetry(rt, nil, "y")), &rte) {
 		return fail("timeout-not-identifiable", "wrapped RequestTimeoutError not found by errors.As")
 	}
+	seen := map[string]bool{}
+	r.Evals = p.N
 	for i := 0; i < p.N; i++ {
 		retryCalled := 0
 		root, desc := buildChain(rng, &retryCalled)
@@ -224,7 +226,12 @@ func c19Run(c fw.Case, env *fw.Env) fw.Result {
 			r.Counters["retry_handles_invoked"]++
 		}
 		// errors.As finds ConnectionError wherever stdlib unwrapping reaches it
-		r.NT = append(r.NT, "c:"+desc)
+		r.Counters["chains_checked"]++
+		if !seen[desc] && len(seen) < 20000 {
+			// distinct chain shapes (bounded per case so that the journal stays small)
+			seen[desc] = true
+			r.NT = append(r.NT, "c:"+desc)
+		}
 		if i == 0 {
 			r.Sample = map[string]interface{}{"mode": "chains", "chain": desc, "targets": len(c19Sentinels) + len(chain) + 1}
 		}
